@@ -26,3 +26,23 @@ Theorem C07_framing :
     sd_jwt_parts (serialise_token jwt ds) = (jwt, map d_str ds, None).
 Proof. exact token_framing. Qed.
 Print Assumptions C07_framing.
+
+(* The independent reference verifier (RefVerify.v: the specification's algorithm, top-down, one pass, digest
+   table; it shares no code with the model of the library's restorer) is SOUND with respect to the projection:
+   for every conformant token t and every list of presented strings (none hashing to a decoy), whenever it
+   accepts, its result is the projection determined by the presented set, minus _sd_alg - the value the
+   library model's Verifier::verify returns for the same presentation (C03_verifier_entry_complete). So the
+   per-run agreement "library = model = reference verifier" of the correspondence run compares the library
+   against a specification-level algorithm whose meaning is pinned by this theorem. (Completeness of the
+   reference verifier - that it accepts - is checked per run, not proved.) *)
+Require Import SDJ.ATree SDJ.T2c SDJ.T2h SDJ.T2m SDJ.RefVerify SDJ.C03Proofs SDJ.RefProofs.
+Theorem C07_reference_verifier_sound :
+  forall (H : string -> string) (enc : list json -> string) (dec : string -> option json),
+    (forall x y, H x = H y -> x = y) ->
+    (forall ps, dec (enc ps) = Some (JArr ps)) ->
+    forall t : atree, wf H enc t -> NoDup (alldigs H enc t) -> NoDup (hdigs H enc t) ->
+    forall (L : list string) (j : json),
+      (forall s, In s L -> In (H s) (alldigs H enc t) -> In (H s) (hdigs H enc t)) ->
+      ref_verify H dec (blind H enc t) L = Some j -> j = drop_alg (proj H enc (ownS H L) t).
+Proof. exact ref_verify_sound. Qed.
+Print Assumptions C07_reference_verifier_sound.
